@@ -1116,6 +1116,7 @@ pub fn check_c14(case: &HistoryCase, obs: &Obs, rep: &mut Report) {
 pub type Oracle = fn(&HistoryCase, &Obs, &mut Report);
 
 pub fn run_case(case: &HistoryCase, oracle: Oracle, rep: &mut Report) {
+    crate::report::journal_enter(|| case.to_json());
     rep.evaluations += 1;
     match observe(case) {
         Ok(obs) => {
